@@ -84,7 +84,7 @@ impl Protocol for Probe {
     }
 
     fn demux(&self, message: Message, _caller: Arc<dyn Session>, control: Control, _machine: Arc<Machine>) -> Result<(), DemuxError> {
-        self.log.lock().unwrap().push(DemuxRec { t: self.wire.now(), machine: self.machine, app: 0, payload: message.to_vec(), pci: control.get::<pci::DemuxInfo>().copied(), ipv4: None, udp: None, endpoints: None });
+        self.log.lock().unwrap().push(DemuxRec { order: self.wire.tick(), t: self.wire.now(), machine: self.machine, app: 0, payload: message.to_vec(), pci: control.get::<pci::DemuxInfo>().copied(), ipv4: None, udp: None, endpoints: None });
         Ok(())
     }
 }
@@ -220,7 +220,7 @@ impl Check for LinkLayer {
             machines.push(Machine::new().with(pci).with(probe).arc());
         }
         let horizon = Duration::from_secs(3600);
-        let (_status, panics) = run_virtual(async { run_internet_with_timeout(&machines, horizon).await });
+        let (_status, panics): (Option<_>, _) = run_virtual(async { run_internet_with_timeout(&machines, horizon).await });
         panics_to_failure(&panics)?;
 
         let frames = wire.snapshot();
